@@ -1220,7 +1220,7 @@ class Circuit(Unitary, StateVectorMap, Collection[Operation]):
         for op in circuit:
             mapped_location = [location[q] for q in op.location]
             ci = self.append(Operation(op.gate, mapped_location, op.params))
-            if cycle_index is None:
+            if cycle_index == -1:
                 cycle_index = ci
 
         return cycle_index
